@@ -121,28 +121,35 @@ Qed.
 Print Assumptions C13_package_append_preserves.
 
 (* the property at full strength, on the linked descriptors (what CompilePackage returns): for
-   every valid bundle (validity includes: every file lies in a package directory), every package of it and every
-   sequence of append edits (fold_left over the list: apply_edits; an edit appends a field, an
-   option or a nested declaration anywhere inside a declaration - J5sEdit.EAppendIn and its
-   top-level special cases - or a declaration to a file) each of which addresses a source file,
-   is applicable and leaves the bundle valid (seq_ok), the edited package compiles
-   and every previously generated file, message, field (name, JSON name, number, type, label,
-   optionality, fully qualified type name), nested message, enum value (name, number), service
-   and method (types, HTTP rule) is unchanged: the old descriptors embed into the new ones
-   (J5sEdit.files_ext).  Proved by induction over the edit list; the single step composes the
-   per-file embedding, the growth of the environment, the package-level file list and the fact
-   that qualifying type names commutes with the embedding. *)
+   every valid bundle (validity includes: every file lies in a package directory), every package
+   of it and every sequence of append edits (fold_left over the list: apply_edits; an edit
+   appends a field, an option or a nested declaration anywhere inside a declaration -
+   J5sEdit.EAppendIn and its top-level special cases - or a declaration to a file) after which
+   the bundle is valid again, the edited package compiles and every previously generated file,
+   message, field (name, JSON name, number, type, label, optionality, fully qualified type name),
+   nested message, enum value (name, number), service and method (types, HTTP rule) is
+   unchanged: the old descriptors embed into the new ones (J5sEdit.files_ext). *)
 Definition C13_full_statement : Prop :=
   forall es bd pkg,
-    valid bd = true -> seq_ok bd es -> (exists x, In x bd /\ bfile_pkg x = pkg) ->
+    valid bd = true -> valid (apply_edits bd es) = true -> (exists x, In x bd /\ bfile_pkg x = pkg) ->
     exists D D', compile bd pkg = Ok D /\ compile (apply_edits bd es) pkg = Ok D' /\ files_ext D D'.
 
-(* seq_ok: every edit addresses a source file of the bundle and leaves the bundle valid; no class
-   of append edits is excluded (before fix a65e1f2: an option ending in UNSPECIFIED appended to an
-   enum without options) *)
+(* ANY history of append edits, over any number of files: only the first and the last version
+   of the bundle must be valid - the intermediate versions need not compile (no class of edits is
+   excluded; edits that address no source file change nothing).  The whole history is ONE step:
+   file by file the composed edits extend the source (file_src_ext, no validity involved), and
+   the embedding theorem holds for any map of the bundle that extends every source file
+   (J5sFullProofs.compile_package_ext_g). *)
 Theorem C13_full : C13_full_statement.
-Proof. exact c13_full_valid. Qed.
+Proof. exact c13_histories. Qed.
 Print Assumptions C13_full.
+
+(* the step-by-step form (every intermediate bundle valid: seq_ok), by induction over the list *)
+Theorem C13_full_stepwise : forall es bd pkg,
+  valid bd = true -> seq_ok bd es -> (exists x, In x bd /\ bfile_pkg x = pkg) ->
+  exists D D', compile bd pkg = Ok D /\ compile (apply_edits bd es) pkg = Ok D' /\ files_ext D D'.
+Proof. exact c13_full_valid. Qed.
+Print Assumptions C13_full_stepwise.
 
 (* the same, naming the old output (the form with the redundant premises the induction uses) *)
 Theorem C13_full_for_output : forall es bd pkg D,
@@ -152,6 +159,37 @@ Theorem C13_full_for_output : forall es bd pkg D,
   exists D', compile (apply_edits bd es) pkg = Ok D' /\ files_ext D D'.
 Proof. exact c13_full. Qed.
 Print Assumptions C13_full_for_output.
+
+(* non-vacuity with an INVALID intermediate version, over two files: a.j5s `object Foo { field a
+   string }`, b.j5s `object Other {}`; first a field of Foo referring to Bar (not declared yet:
+   the package does not compile), then `object Bar` appended to the OTHER file *)
+Example C13_history_through_invalid_version :
+  let bd := [BJ (mkJfile [b "foo"; b "v1"] (b "a") []
+               [EObject (b "Foo") (mkprops [Property (b "a") false false (FScalar SString)]) NNil]);
+             BJ (mkJfile [b "foo"; b "v1"] (b "b") []
+               [EObject (b "Other") (mkprops [Property (b "o") false false (FScalar SString)]) NNil])] in
+  let es := [EAppendField 0 0 (Property (b "bar") false false (FObjRef (mkRef [] (b "Bar"))));
+             EAppendDecl 1 (EObject (b "Bar") (mkprops [Property (b "x") false false (FScalar SString)]) NNil)] in
+  valid bd = true /\ valid (apply_edits bd (firstn 1 es)) = false /\ valid (apply_edits bd es) = true /\
+  exists D D', compile bd (b "foo.v1") = Ok D /\ compile (apply_edits bd es) (b "foo.v1") = Ok D' /\ files_ext D D'.
+Proof.
+  cbv zeta. split; [vm_compute; reflexivity|]. split; [vm_compute; reflexivity|]. split; [vm_compute; reflexivity|].
+  apply C13_full.
+  - vm_compute. reflexivity.
+  - vm_compute. reflexivity.
+  - eexists. split; [left; reflexivity|vm_compute; reflexivity].
+Qed.
+Print Assumptions C13_history_through_invalid_version.
+
+(* histories of one source file (the first form of the above; kept: its proof composes the
+   edits into one replacement of the file) *)
+Theorem C13_single_file_histories : forall es bd pkg k f,
+  valid bd = true -> nth_error bd k = Some (BJ f) -> (forall e, In e es -> edit_target e = k) ->
+  valid (apply_edits bd es) = true ->
+  (exists x, In x bd /\ bfile_pkg x = pkg) ->
+  exists D D', compile bd pkg = Ok D /\ compile (apply_edits bd es) pkg = Ok D' /\ files_ext D D'.
+Proof. exact c13_single_file. Qed.
+Print Assumptions C13_single_file_histories.
 
 (* the boolean test the correspondence evaluates on the REAL descriptors before and after every
    generated edit list (J5sCorr.c13_check) is sound for the embedding relation of C13_full *)
